@@ -22,6 +22,14 @@ func VerifDir() string {
 	return d
 }
 
+// OutDir is where evidence and replays are written (VERIF_OUT lets mutant runs write elsewhere).
+func OutDir() string {
+	if d := os.Getenv("VERIF_OUT"); d != "" {
+		return d
+	}
+	return VerifDir()
+}
+
 func Seed() int64 {
 	s, _ := strconv.ParseInt(os.Getenv("VERIF_SEED"), 10, 64)
 	return s
@@ -97,7 +105,7 @@ type Replay struct {
 }
 
 func WriteReplay(r *Replay, n int) string {
-	dir := filepath.Join(VerifDir(), "replays")
+	dir := filepath.Join(OutDir(), "replays")
 	os.MkdirAll(dir, 0o755)
 	p := filepath.Join(dir, fmt.Sprintf("%s-%d.json", r.Property, n))
 	b, _ := json.MarshalIndent(r, "", " ")
@@ -118,7 +126,7 @@ type Evidence struct {
 }
 
 func WriteEvidence(e *Evidence) {
-	dir := filepath.Join(VerifDir(), "evidence")
+	dir := filepath.Join(OutDir(), "evidence")
 	os.MkdirAll(dir, 0o755)
 	b, _ := json.MarshalIndent(e, "", " ")
 	os.WriteFile(filepath.Join(dir, e.PropertyID+".json"), b, 0o644)
